@@ -24,7 +24,7 @@
    {'file': 'overlay:cxx/path_remove_prefix.c', 'func': 'path_remove_prefix', 'at': 'before', 'anchor': 'path = path_iterate(path);', 'ghost': 'g_done++;'},
    {'file': 'overlay:cxx/path_remove_prefix.c', 'func': 'path_remove_prefix', 'at': 'before', 'anchor': 'break;', 'ghost': 'g_differ = 1;'},
    {'file': 'overlay:cxx/path_remove_prefix.c', 'func': 'path_remove_prefix', 'at': 'before', 'anchor': 'return path;', 'ghost': 'g_endq = (size_t)(prefix - g_Q);'},
-   {'file': 'overlay:cxx/path_remove_prefix.c', 'func': 'path_remove_prefix', 'loop': 0, 'expect': 'while (*prefix != 0 || *path != 0)',
+   {'file': 'overlay:cxx/path_remove_prefix.c', 'func': 'path_remove_prefix', 'loop': 0, 'expect': 'while (*prefix != 0',
     'assigns': 'path, prefix, g_cnt, g_done, g_differ',
     'invariants': [
       'path != NULL && prefix != NULL && __CPROVER_same_object(path, g_P) && __CPROVER_same_object(prefix, g_Q)',
@@ -70,6 +70,7 @@ void harness(void)
     if (g_differ)
         __CPROVER_assert(g_done + 1 == g_cnt, "remove_prefix: stopped at the first node pair that differs, all earlier pairs compared equal");
     else
-        __CPROVER_assert(g_done == g_cnt && P[ro] == 0 && Q[g_endq] == 0, "remove_prefix: otherwise every pair compared equal and both strings are exhausted");
+        /* the unrepaired loop runs while EITHER string has bytes left (that is the finding: it then walks on with a NULL cursor); the repaired one while BOTH have */
+        __CPROVER_assert(g_done == g_cnt && (KF_C19_path_remove_prefix_null == 0 ? (P[ro] == 0 || Q[g_endq] == 0) : (P[ro] == 0 && Q[g_endq] == 0)), "remove_prefix: otherwise every pair compared equal and the strings are exhausted");
     CANARY("remove_prefix end reachable");
 }
